@@ -74,5 +74,5 @@ Section Generic.
     | c :: r => if f c then mism_from (N.succ n) r else n :: mism_from (N.succ n) r
     end.
 End Generic.
-Definition mismatches := mism_from (fun c => AnaCross.ana_cross (c16_prog c) (c16_ana c) && chk c) 0%N.
+Definition mismatches := mism_from (fun c => AnaCross.ana_cross_e (c16_prog c) (c16_enums c) (c16_ana c) && chk c) 0%N.
 Definition prop_failures := mism_from chk_prop 0%N.
